@@ -22,7 +22,7 @@ for mp in sorted(glob.glob(os.path.join(ROOT, "seeded", "C*", "*", "meta.json"))
     keys = ", ".join(sorted({k["key"] for k in (m.get("check_keys") or [])}))[:160]
     note = m.get("note", "")
     t2.append("| `%s` | %s | %s | %s | %s%s |" % (rel, (m.get("breaks") or "").replace("|", "\\|").replace("\n", " ")[:230],
-                                               "yes" if m.get("confirmed") else "no", "yes" if m.get("caught_by_check") else "NO", keys, (" — " + note) if note else ""))
+                                               "yes" if m.get("confirmed") else "no", ("n/a" if m.get("caught_by_check") is None else ("yes" if m.get("caught_by_check") else "NO")), keys, (" — " + note) if note else ""))
 
 p = os.path.join(ROOT, "DESIGN.md")
 s = open(p).read()
